@@ -497,3 +497,87 @@ fn panic_at_k(_id: u8) {
         }
     }
 }
+
+/// The user's `Into<Components>` conversion (user code that may panic) runs while the storage is
+/// in its between-operations state: inspected from inside the conversion, the storage equals
+/// the pre-state (nothing was reserved, counted or written yet).
+pub fn conversion_point<const N: usize>(world_level: bool) {
+    use wt::*;
+    reset();
+    let m: Model<N> = Model::any_inv();
+    let mut i = 0;
+    while i < N {
+        sym::assume(m.val[i] == i as u8);
+        i += 1;
+    }
+    let mut world = load::<TokM, N>(&m);
+    unsafe {
+        WORLD = &mut world as *mut WT as *mut u8;
+        PRE = &m as *const Model<N> as *const u8;
+        ON_CONVERT = Some(inspect_unchanged::<N>);
+        HITS = 0;
+    }
+    let w = unsafe { &mut *(WORLD as *mut WT) };
+    let e = if world_level { w.create::<ArchTok>(Lazy(7)) } else { w.arch_tok.create(Lazy(7)) };
+    unsafe {
+        ON_CONVERT = None;
+        assert!(HITS == 1, "the user conversion did not run exactly once");
+    }
+    assert!(world.contains(e));
+    cover!(m.len == N, "conversion while the archetype is full (create will grow)");
+    cover!(m.len < N, "conversion with room left");
+    std::mem::forget(world);
+}
+
+unsafe fn inspect_unchanged<const N: usize>() {
+    HITS += 1;
+    let world = &mut *(WORLD as *mut wt::WT);
+    let pre = &*(PRE as *const Model<N>);
+    let (_v, len, cap, _fh) = wt::TokM::get_raw(&world.arch_tok);
+    assert!(len == pre.len && cap == N, "C10: create changed len/capacity BEFORE running the user's Into<Components> conversion (a panic there leaves uninitialised cells counted as live)");
+    let now: Model<N> = read::<wt::TokM, N>(world);
+    assert!(now.inv(), "C10: storage inconsistent while the user's Into<Components> conversion runs");
+    assert_unchanged::<wt::TokM, N>(pre, &now);
+}
+
+/// A guard leaked with mem::forget (safe code) leaves a column's RefCell flagged forever. A later
+/// destroy holds `&mut self`; it must either complete or refuse with the world untouched — never
+/// panic half-way. Kani decides whether a RefCell panic is REACHABLE inside destroy; if it is, the
+/// recorded values are replayed natively where the unwinding is caught and the oracle evaluated.
+pub fn leaked_guard_then_destroy<const N: usize>(col: u8, kind: u8) {
+    use w3::*;
+    let m: Model<N> = Model::any_inv();
+    assume_no_overflow(&m);
+    let k = sym::any_usize();
+    sym::assume(k < m.len);
+    let mut world = load::<Tri, N>(&m);
+    match col {
+        0 => std::mem::forget(world.arch_tri.borrow_slice_mut::<P>()),
+        1 => std::mem::forget(world.arch_tri.borrow_slice_mut::<Pad>()),
+        _ => std::mem::forget(world.arch_tri.borrow_slice::<Pad>()),
+    }
+    let (key, ver) = m.handle_raw(Tri::ID, k);
+    let any = EntityAny::from_raw((key, ver)).ok().unwrap();
+    let typed: Entity<ArchTri> = any.try_into().ok().unwrap();
+    run_guarded::<Tri, N>(&mut world, &m, k, |w| match kind {
+        0 => {
+            let _ = w.destroy(any);
+        }
+        1 => {
+            let _ = w.arch_tri.destroy(typed).map(|c| Tri::un(c));
+        }
+        _ => {
+            ecs_iter_destroy!(w, |e: &EntityAny| if e.raw() == (key, ver) { EcsStepDestroy::BreakDestroy } else { EcsStepDestroy::Continue });
+        }
+    });
+    let post: Model<N> = read::<Tri, N>(&mut world);
+    assert!(post.inv(), "C10: storage inconsistent after destroy with a leaked guard");
+    cover!(post.len + 1 == m.len, "destroy completed despite the leaked guard");
+    std::mem::forget(world);
+}
+
+harness! { fn c10_conversion_point_arch_2() unwind(10) { conversion_point::<2>(false) } }
+harness! { fn c10_conversion_point_world_2() unwind(10) { conversion_point::<2>(true) } }
+harness! { fn c10_leaked_guard_destroy_any_3() unwind(5) { leaked_guard_then_destroy::<3>(1, 0) } }
+harness! { fn c10_leaked_guard_destroy_typed_2() unwind(4) { leaked_guard_then_destroy::<2>(0, 1) } }
+harness! { fn c10_leaked_guard_iter_destroy_2() unwind(4) { leaked_guard_then_destroy::<2>(2, 2) } }
